@@ -245,8 +245,11 @@ def propagate_facets(pages: Dict[FileId, Page], context: Context) -> None:
                     # .ast files have their .txt fileids spoofed
                     fileid = FileId(fileid.as_posix().replace(".ast", ".txt"))
 
-                page = pages[fileid]
-                page.facets = parent_facets
+                # Not every source-looking file on disk is a page of this project
+                # (files of a nested project, files that could not be read)
+                page = pages.get(fileid)
+                if page is not None:
+                    page.facets = parent_facets
 
 
 class Handler:
